@@ -396,6 +396,24 @@ theorem none_default_equiv :
    ⟨rfl, SameMeaning.alt .pipe .anyOf (SameMeaning.scalar .builtin .cls .int) SameMeaning.none, rfl, rfl⟩,
    rfl, rfl, rfl, rfl, rfl, rfl, rfl, rfl⟩
 
+/-- `default=None` is the keyword's own default: `a: Integer(default=None)`, `a = Integer(default=None)`, `a: Integer()` and
+    `a: Integer` are the same declaration (a required field without default) - unlike `a: Integer = None`, where `None`
+    is validated as a value (and refused). -/
+theorem default_none_kw_equiv :
+    let a : FieldSp := annF (.finst .int) (.kw .none 4)
+    let a' : FieldSp := { name := "a", mode := .assign, ty := .finst .int, dflt := .kw .none 4 }
+    let b : FieldSp := annF fInt
+    FieldSame a b ∧ FieldSame a' b
+    ∧ fieldSupported noRe tm false a = true ∧ fieldSupported noRe tm true a' = true
+    ∧ elabField noRe tm false a = .ok (.field (.integer {}) true none)
+    ∧ elabField noRe tm false a' = elabField noRe tm false a
+    ∧ elabField noRe tm false b = elabField noRe tm false a
+    ∧ elabField noRe tm false (annF (.lit (.string none (some 3) none) 19) (.kw .none 4) true)
+        = .ok (.field (.string none (some 3) none) false none)
+    ∧ elabField noRe tm false (annF fInt (.eq .none 4)) = .error .typeErr :=
+  ⟨⟨rfl, SameMeaning.scalar .inst .cls .int, rfl, rfl⟩, ⟨rfl, SameMeaning.scalar .inst .cls .int, rfl, rfl⟩,
+   rfl, rfl, rfl, rfl, rfl, rfl, rfl⟩
+
 /-! ### default factories -/
 
 /-- A default factory (a callable) is kept as the field's default - evaluated for every instance - whether it
